@@ -74,7 +74,7 @@ class Renderer(object):
         if t == "call":
             return "%s(%s)" % (e(a[0]), ", ".join(e(c) for c in a[1:]))
         if t == "attr":
-            return "%s.%s" % (e(a[0]), n["s"])
+            return "%s.%s" % ("(%s)" % e(a[0]) if a[0]["t"] == "int" else e(a[0]), n["s"])
         if t == "sub":
             return "%s[%s]" % (e(a[0]), e(a[1]))
         if t == "lambda":
@@ -274,6 +274,8 @@ def run_work(moddir, modname, work, leg, tag, timeout=600):
             else:
                 out[rec[0]] = rec[1]
         rest = [w for w in todo if w[0] not in out]
+        if not done and not ch.crashed and not ch.timed_out and len(rest) == len(todo):
+            core.die("c01 driver failed before the first program (%s): %s" % (leg, ch.err[-1500:]))
         if done or not rest:
             break
         # the child died while running the first unanswered program
